@@ -144,22 +144,20 @@ CONDITIONS = [
               "0 <= embedded <= 3", "0 <= nkeys1 <= 2", "0 <= outer <= 2", "h1 == 0", "h2 == 0"],
          partitions={"quick": [{"issuer": i, "signer": s, "u22": 0, "u12": (i + s) % 3, "e2_is_sp": (i + s) % 2 == 0, "nkeys1": 2 if (i + s) % 4 else 0, "outer": (i + 2 * s) % 3, "u11": (i * s) % 3}
                                for i in range(len(ISSUERS)) for s in range(len(CERTS))],
-                     "thorough": [{"issuer": i, "signer": s, "only_md": f, "e2_is_sp": (i + s) % 2 == 0, "outer": o, "nkeys1": 2 if (i + s + o) % 5 else 1,
-                                   "u21": a, "u22": b}
-                                  for i in range(len(ISSUERS)) for s in range(len(CERTS)) for f in (False, True) for o in range(3) for a in range(3) for b in range(3)
-                                  if (i + s + o + a + b) % 2 == 0]},
+                     "thorough": [{"issuer": i, "signer": s, "u22": (i + o) % 3, "u12": (i + s) % 3, "e2_is_sp": (i + s) % 2 == 0, "nkeys1": 2 if (i + s + o) % 4 else 1, "outer": o, "u11": (i * s + o) % 3}
+                                  for i in range(len(ISSUERS)) for s in range(len(CERTS)) for o in range(3)]},
          timeout={"quick": 600, "thorough": 1800}, path_timeout=60,
          functions=["sigver.SecurityContext._check_signature", "sigver.SecurityContext.verify_signature", "sigver.cert_from_instance/cert_from_key_info/pem_format",
                     "mdstore.MetadataStore.certs", "mdstore.MetaData.certs (extract_certs)", "mdstore.repack_cert", "mdstore.InMemoryMetaData.do_entity_descriptor"],
          bounds="federation of two entities (second one IdP or SP) with 0-2 / 2 key descriptors each of use {signing, encryption, unspecified}; claimed Issuer in {first, second, unknown, absent, "
                 "whitespace-padded first}; issuer of the enclosing message supplied by the caller {none, first, second}; actual signing key in {each of the 4 metadata certificates, an embedded-only certificate}; embedded KeyInfo certificate in {none, first entity's, "
-                "second entity's, unrelated}; only_use_keys_in_metadata on/off (quick: sampled use assignments)"),
+                "second entity's, unrelated}; only_use_keys_in_metadata on/off (quick: 25, thorough: 75 partitions of fixed issuer/signer/outer and sampled use assignments, the remaining uses, the embedded certificate and the flag free; a full grid costs ~2 h)"),
     Cond(name="history", fn="trust", params=_P,
          pre=["0 <= u11 <= 2", "0 <= u12 <= 2", "0 <= u21 <= 2", "0 <= u22 <= 2", "0 <= issuer <= 1", "0 <= signer <= 3",
               "0 <= embedded <= 3", "0 <= nkeys1 <= 2", "outer == 0", "0 <= h1 <= 6", "0 <= h2 <= 6"],
          partitions={"quick": [{"issuer": i, "signer": s, "h1": 2 + 3 * i, "embedded": 0, "nkeys1": 2, "e2_is_sp": False, "u12": 1 + i, "u22": 2 - i, "u21": s % 3} for i in (0, 1) for s in range(4)],
-                     "thorough": [{"issuer": i, "signer": s, "h1": h, "nkeys1": 2, "e2_is_sp": sp, "only_md": f, "u11": a, "u21": a, "u22": (a + 1) % 3} for i in (0, 1) for s in range(4) for h in range(1, 7) for sp in (False, True)
-                                  for f in (False, True) for a in range(3) if (i + s + h + a) % 2 == 0]},
+                     "thorough": [{"issuer": i, "signer": s, "h1": h, "embedded": (s + h) % 4, "nkeys1": 2, "e2_is_sp": (i + h) % 2 == 0, "u12": (i + h) % 3, "u22": (s + h) % 3, "u21": s % 3}
+                                  for i in (0, 1) for s in range(4) for h in range(1, 7)]},
          timeout={"quick": 600, "thorough": 1200}, path_timeout=60,
          functions=["mdstore.MetadataStore.certs", "mdstore.MetaData.certs (extract_certs)", "sigver.SecurityContext._check_signature"],
          bounds="as trust, preceded by up to two certificate look-ups on the same store (entity x use in {signing, encryption, unspecified}); claimed Issuer one of the two entities; "
